@@ -368,6 +368,19 @@ def r17_8(prog, rep):
     names = {T.refname(x) for x in un[1]} if un[0] in ("tuple", "list", "set") else set()
     need = {"builtins.object", "typing.Any", "typelib.constants.empty", "inspect.Parameter.empty", "typing.Callable", "builtins.Ellipsis"}
     rep.check(need <= names, "R17.8", f"{C.INSP}._UNRESOLVABLE", insp.relpath, "covers object, Any, the empty sentinels, Callable and Ellipsis", f"_UNRESOLVABLE lacks {sorted(need - names)}", detail="table")
+    # independence of spelling: a table tested on the raw annotation lists a typing alias together with its runtime origin
+    missing = []
+    for nm in sorted(n for n in names if n and n.startswith("typing.")):
+        org = oracle.typing_origin(nm.split(".", 1)[1])
+        if org is not None:
+            dotted = f"{org.__module__}.{org.__qualname__}"
+            if dotted not in names:
+                missing.append(f"{nm} without {dotted}")
+    iu = prog.functions.get(f"{C.INSP}.isunresolvable")
+    raw = iu is not None and any(T.contains(r, lambda x: x[0] == "cmp" and x[1] == "in" and x[2] == ("param", iu.params[0])) for _, r in P.returns(P.paths_of(prog, iu)))
+    if not raw:
+        missing = []  # the subject is normalised first: one spelling in the table is enough
+    rep.check(not missing, "R17.8", f"{C.INSP}._UNRESOLVABLE", insp.relpath, "every typing alias in the table is accompanied by its runtime origin (both spellings answer alike)", f"_UNRESOLVABLE lists {missing[0] if missing else ''}: the predicate tests the raw annotation, so the two spellings of one type get different answers", detail="table-spellings")
     # optional detection over all members (shared with R08.6)
     from ..report import Report as _R, absorb
     from . import c08
@@ -400,7 +413,42 @@ def r17_9(prog, rep):
     rep.check(not bad and decided >= 20, "R17.9", f.qualname, f.loc, f"interpreting origin() on {decided} catalogue forms reproduces the documented abstract-to-builtin mapping", f"origin() no longer computes the documented origin: {bad[:3]}" if bad else f"origin() could be interpreted on only {decided} catalogue forms", detail="catalogue")
 
 
+def r17_10(prog, rep):
+    """qualname(): the text-splitting exit is for annotations whose *text* is a typing form; a class is named by its own
+    __qualname__ (then __name__).  name() is the last dotted component of qualname()."""
+    f = prog.function(f"{C.INSP}.qualname")
+    obj = ("param", f.params[0])
+    split_ok, split_seen = True, False
+    qn_ok = False
+    for p, r in P.returns(P.paths_of(prog, f)):
+        splits = [x for x in T.walk(r) if x[0] == "call" and x[1][0] == "attr" and x[1][2] in ("split", "partition")]
+        if splits:
+            split_seen = True
+            recv = splits[0][1][1]
+            tests = [g[2][0] for g, pol in p.guards() if pol and T.is_call_to(g, f"{C.INSP}.isgeneric") and g[2]]
+            if not tests or any(t0 != recv for t0 in tests):
+                split_ok = False
+            continue
+        qa = ("call", ("ref", "builtins.getattr"), (obj, ("const", "__qualname__"), ("const", None)), ())
+        if T.contains(r, lambda x: x == qa or x == ("attr", obj, "__qualname__")):
+            qn_ok = True
+    rep.check(split_seen and split_ok, "R17.10", f.qualname, f.loc, "the text of an annotation is cut at '[' only when that same text is a typing form", "the generic test that routes to the text-splitting exit is not applied to the text that is split: a class deriving from typing.Generic / Protocol is named by its repr (\"<class '…Box'>\")", detail="generic-on-text")
+    rep.check(qn_ok, "R17.10", f.qualname, f.loc, "a class is named by its own __qualname__", "no exit returns the object's __qualname__", detail="qualname-attr")
+    g = prog.function(f"{C.INSP}.name")
+    o2 = ("param", g.params[0])
+    ok = False
+    for p, r in P.returns(P.paths_of(prog, g)):
+        q = ("call", ("ref", f"{C.INSP}.qualname"), (o2,), ())
+        if r[0] == "sub" and r[2] == ("const", -1) and r[1][0] == "call" and r[1][1][0] == "attr" and r[1][1][1] == q and r[1][1][2] in ("rsplit", "split") and r[1][2][:1] == (("const", "."),):
+            ok = True
+        if r[0] == "sub" and r[2] == ("const", -1) and r[1][0] == "call" and r[1][1][0] == "attr" and r[1][1][1] == q and r[1][1][2] == "rpartition":
+            ok = True
+    rep.check(ok, "R17.10", g.qualname, g.loc, "name(obj) is the last dotted component of qualname(obj)", "name() is not the last dotted component of qualname()", detail="name")
+
+
 def run(prog: Program, rep: Report, tier: str):
+    rep.rule("R17.10", "qualname()/name() name a class by its own qualified name; the text exit is for typing forms only", floor=3)
+    r17_10(prog, rep)
     rep.rule("R17.9", "origin() interpreted on the catalogue reproduces the documented mapping", floor=1)
     rep.rule("R17.8", "special-form predicates are computed from the facts their contracts name", floor=15)
     rep.rule("R17.1", "GENERIC_TYPE_MAP values are concrete instantiable builtins of the key's kind", floor=18)
